@@ -393,8 +393,34 @@ func heightClass(a, b *version) string {
 
 // checkNodeDiff: C07 for one ordered pair of persisted versions.
 func checkNodeDiff(cfg *world.Config, o, n *version) []explore.Finding {
-	cls := heightClass(o, n)
-	evs, nonString, r := observeDiffLinks(n.t, o.t)
+	out := checkNodeDiffTrees(cfg, o, n, n.t, o.t, heightClass(o, n))
+	if len(out) > 0 || o.root == nil || n.root == nil {
+		return out
+	}
+	// the same two versions opened through a NodeCache that holds none of their nodes yet (a fresh process,
+	// a replica): one cache for both trees, and one each
+	for vi, variant := range []string{"both-versions-through-one-cold-NodeCache", "each-version-through-its-own-cold-NodeCache"} {
+		c1 := mast.NewNodeCache(1000)
+		c2 := c1
+		if vi == 1 {
+			c2 = mast.NewNodeCache(1000)
+		}
+		orc, nrc := o.w.RemoteConfig(o.w.Store, false), n.w.RemoteConfig(n.w.Store, false)
+		orc.NodeCache, nrc.NodeCache = c1, c2
+		ot, err1 := o.root.LoadMast(ctx, orc)
+		nt, err2 := n.root.LoadMast(ctx, nrc)
+		if err1 != nil || err2 != nil {
+			continue
+		}
+		if out := checkNodeDiffTrees(cfg, o, n, nt, ot, heightClass(o, n)+"|"+variant); len(out) > 0 {
+			return out
+		}
+	}
+	return nil
+}
+
+func checkNodeDiffTrees(cfg *world.Config, o, n *version, newT, oldT *mast.Mast, cls string) []explore.Finding {
+	evs, nonString, r := observeDiffLinks(newT, oldT)
 	if r.Err != nil || r.Panic != nil {
 		return []explore.Finding{{Sig: fmt.Sprintf("C07|DiffLinks|%s|%s", cls, resClass(r)), What: "DiffLinks failed on two persisted versions", Detail: fmt.Sprintf("old %v new %v: %v", o.c, n.c, r)}}
 	}
@@ -627,6 +653,9 @@ type pairAcc struct {
 	pairs   int64
 	nontr   int64
 	samples []interface{}
+	// relabel: findings of a judge written for another property are reported under this one (C16 runs the
+	// diff-cost judge of C15 on related trees)
+	relabel string
 }
 
 // sample keeps a few concrete cases for the evidence file.
@@ -654,6 +683,12 @@ func (a *pairAcc) add(cfg *world.Config, check string, fs []explore.Finding, his
 		a.found = map[string]*report.Violation{}
 	}
 	for _, f := range fs {
+		if a.relabel != "" {
+			check = a.relabel
+			if len(f.Sig) > 3 && f.Sig[3] == '|' {
+				f.Sig = a.relabel + f.Sig[3:]
+			}
+		}
 		v := a.found[f.Sig]
 		if v == nil {
 			a.found[f.Sig] = &report.Violation{Sig: f.Sig, What: f.What, Detail: f.Detail, Config: cfg.Name, Check: check, History: histDesc, Count: 1}
